@@ -401,6 +401,7 @@ func (q *TransferQueue) remember(t *objectTuple) objects {
 
 	if _, ok := q.transfers[t.Oid]; !ok {
 		q.wait.Add(1)
+		tools.VerifTrace("tq.add", t.Oid, "new")
 		q.transfers[t.Oid] = &objects{
 			objects: []*objectTuple{t},
 		}
@@ -409,6 +410,7 @@ func (q *TransferQueue) remember(t *objectTuple) objects {
 	}
 
 	q.transfers[t.Oid] = q.transfers[t.Oid].Append(t)
+	tools.VerifTrace("tq.add", t.Oid, "dup")
 
 	return *q.transfers[t.Oid]
 }
@@ -449,6 +451,7 @@ func (q *TransferQueue) collectBatches() {
 				break
 			}
 
+			tools.VerifTrace("tq.take", t.Oid)
 			next = append(next, t)
 		}
 
@@ -482,6 +485,7 @@ func (q *TransferQueue) collectBatches() {
 		// we don't deadlock waiting for objects to complete when they
 		// never will.
 		if err != nil && !errors.IsRetriableError(err) {
+			tools.VerifTrace("tq.abort")
 			q.wait.Abort()
 			break
 		}
@@ -492,6 +496,9 @@ func (q *TransferQueue) collectBatches() {
 		// - new additions that were enqueued behind retries, &
 		// - items collected while the batch was processing.
 		var minWaitTime time.Duration
+		for _, t := range retries {
+			tools.VerifTrace("tq.requeue", t.Oid)
+		}
 		next, pending, minWaitTime = retries.Concat(append(pending, collected...), q.batchSize)
 		if len(next) == 0 && len(pending) != 0 {
 			// There are some pending that could not be queued.
@@ -521,6 +528,7 @@ func (q *TransferQueue) collectPendingUntil(done <-chan struct{}) (pending batch
 				return
 			}
 
+			tools.VerifTrace("tq.take", t.Oid)
 			pending = append(pending, t)
 		case <-done:
 			return
@@ -543,9 +551,14 @@ func (q *TransferQueue) enqueueAndCollectRetriesFor(batch batch) (batch, error) 
 
 	next := q.makeBatch()
 	tracerx.Printf("tq: sending batch of size %d", len(batch))
+	for _, t := range batch {
+		tools.VerifTrace("tq.batch", t.Oid)
+	}
+	tools.VerifTrace("tq.batchsent", len(batch))
 
 	enqueueRetry := func(t *objectTuple, err error, readyTime *time.Time) {
 		count := q.rc.Increment(t.Oid)
+		tools.VerifTrace("tq.retry", t.Oid, count)
 
 		if !t.retryLaterTime.IsZero() {
 			t.ReadyTime = t.retryLaterTime
@@ -594,6 +607,7 @@ func (q *TransferQueue) enqueueAndCollectRetriesFor(batch batch) (batch, error) 
 				} else if readyTime, canRetry := q.canRetryObjectLater(t.Oid, err); canRetry {
 					enqueueRetry(t, err, &readyTime)
 				} else {
+					tools.VerifTrace("tq.callfail-drop", t.Oid)
 					hasNonRetriableObjects = true
 					q.wait.Done()
 				}
@@ -637,6 +651,7 @@ func (q *TransferQueue) enqueueAndCollectRetriesFor(batch batch) (batch, error) 
 
 	for _, o := range bRes.Objects {
 		if o.Error != nil {
+			tools.VerifTrace("tq.reply", o.Oid, "error")
 			q.errorc <- errors.Wrapf(o.Error, "[%v] %v", o.Oid, o.Error.Message)
 			q.Skip(o.Size)
 			q.wait.Done()
@@ -652,6 +667,7 @@ func (q *TransferQueue) enqueueAndCollectRetriesFor(batch batch) (batch, error) 
 			// Transfer object, then we give up on the
 			// transfer by telling the progress meter to
 			// skip the number of bytes in "o".
+			tools.VerifTrace("tq.reply", o.Oid, "unknown")
 			q.errorc <- errors.New(tr.Tr.Get("[%v] The server returned an unknown OID.", o.Oid))
 
 			q.Skip(o.Size)
@@ -665,15 +681,18 @@ func (q *TransferQueue) enqueueAndCollectRetriesFor(batch batch) (batch, error) 
 				if q.canRetryObject(tr.Oid, err) {
 					enqueueRetry(objects.First(), err, nil)
 				} else {
+					tools.VerifTrace("tq.reply", o.Oid, "relerr-drop")
 					q.errorc <- errors.Errorf("[%v] %v", tr.Name, err)
 
 					q.Skip(o.Size)
 					q.wait.Done()
 				}
 			} else if a == nil && manifest.standaloneTransferAgent == "" {
+				tools.VerifTrace("tq.reply", o.Oid, "noaction")
 				q.Skip(o.Size)
 				q.wait.Done()
 			} else {
+				tools.VerifTrace("tq.reply", o.Oid, "transfer")
 				q.meter.StartTransfer(objects.First().Name)
 				toTransfer = append(toTransfer, tr)
 			}
@@ -803,6 +822,7 @@ func (q *TransferQueue) handleTransferResult(
 		// If there was an error encountered when processing the
 		// transfer (res.Transfer), handle the error as is appropriate:
 		if readyTime, canRetry := q.canRetryObjectLater(oid, res.Error); canRetry {
+			tools.VerifTrace("tq.result", oid, "later")
 			// If the object can't be retried now, but can be
 			// after a certain period of time, send it to
 			// the retry channel with a time when it's ready.
@@ -819,6 +839,7 @@ func (q *TransferQueue) handleTransferResult(
 				q.errorc <- res.Error
 			}
 		} else if q.canRetryObject(oid, res.Error) {
+			tools.VerifTrace("tq.result", oid, "retry")
 			// If the object can be retried, send it on the retries
 			// channel, where it will be read at the call-site and
 			// its retry count will be incremented.
@@ -839,6 +860,7 @@ func (q *TransferQueue) handleTransferResult(
 			// the retry channel, and the error will be reported
 			// immediately (unless the error is in response to a
 			// HTTP 422).
+			tools.VerifTrace("tq.result", oid, "drop")
 			if errors.IsUnprocessableEntityError(res.Error) {
 				q.unsupportedContentType = true
 			} else {
@@ -847,6 +869,7 @@ func (q *TransferQueue) handleTransferResult(
 			q.wait.Done()
 		}
 	} else {
+		tools.VerifTrace("tq.result", oid, "ok")
 		q.trMutex.Lock()
 		objects := q.transfers[oid]
 		objects.completed = true
@@ -959,10 +982,12 @@ func (q *TransferQueue) toAdapterCfg(e lfshttp.Endpoint) AdapterConfig {
 // called, Add will no longer add transfers to the queue. Any failed
 // transfers will be automatically retried once.
 func (q *TransferQueue) Wait() {
+	tools.VerifTrace("tq.wait")
 	close(q.incoming)
 
 	q.wait.Wait()
 	q.collectorWait.Wait()
+	tools.VerifTrace("tq.waitret")
 
 	q.finishAdapter()
 	close(q.errorc)
